@@ -128,7 +128,9 @@ def run_info(tools, path, version=1):
         if name in _info_map:
             f = _info_map[name]
             if f == "compression":
-                rec[f] = _comp_ids.get(val, int(val) if val.isdigit() else -1)
+                # the tool names the known algorithms; a bare number is what it prints for an algorithm it does not know
+                tok0 = (val.split() or [""])[0].strip(",;()").lower()
+                rec[f] = _comp_ids[tok0] if tok0 in _comp_ids else (int(tok0) if tok0.isdigit() and int(tok0) not in _comp_ids.values() else -1)
             else:
                 rec[f] = int(val.split()[0].replace(",", ""))
     rec["complete"] = p.returncode == 0 and all(f in rec for f in _info_map.values())
